@@ -210,8 +210,8 @@ def check_deletion(op, before, after):
                     elif tb is not None or fu is not None:
                         # the bracket shows that the group did NOT consume the topic: a group without topics was unlisted by
                         # deleting something that does not exist
-                        bad.append("known:C09:empty-group-foreign-topic-delete: group %d does not consume topic %d, has no topics, "
-                                   "and is dropped from %s: %r -> %r" % (g, t, k, b, a))
+                        bad.append("frame: group %d does not consume topic %d (deleting what does not exist) yet it is dropped from %s: "
+                                   "%r -> %r" % (g, t, k, b, a))
                     # else: undecidable from this bracket (neither the group's detail nor the topic's consumer list was fetched)
             elif a != b:
                 bad.append("frame: %s: %r -> %r" % (k, b, a))
@@ -366,13 +366,13 @@ def oracle_c09(line, impl_line):
                                 "nothing else could drop it, yet the group / its topic %d is not reported: %r"
                                 % (" ".join(op), m[0], " ".join(ops[m[0]]), cfg["expire"], thr, m[1], replies[i][:160])))
             vis = foundts.get((c, g))
-            if (replies[i] == "NIL" and last_found is not None and tss and tss[0] < thr and vis is not None and vis >= thr):
-                # the group was reported at op last_found with a stored commit that is still inside the expiry time, nothing deleted
-                # it since, and it is now purged: commits on both sides of the cut-off with lastCommit pointing at an old one
-                out.append((i, "known:C09:lastcommit-not-monotone",
+            if replies[i] == "NIL" and last_found is not None and vis is not None and vis >= thr:
+                # the group was reported at op last_found with a stored commit that is still inside the expiry time and nothing
+                # deleted it since: its newest commit is not older than the expiry time, so it must not be purged (whatever older
+                # commits arrived later on other partitions; repaired by 989bf1d, C09_g_last_monotone)
+                out.append((i, "expiry",
                             "%s: the group stores a commit inside the expiry time (timestamp %d >= cut-off %d, reported at op %d) but is "
-                            "reported as not found; commits of the group lie on both sides of the cut-off (oldest sent %d)"
-                            % (" ".join(op), vis, thr, last_found, tss[0])))
+                            "reported as not found" % (" ".join(op), vis, thr, last_found)))
             if replies[i] == "NIL":
                 found.pop((c, g), None)         # absent from here on: later not-found replies say nothing new
                 foundts.pop((c, g), None)
